@@ -6,7 +6,8 @@ set -u
 ID=$1; SRC=$2; shift 2; CHECKS=${*:-$ID}
 OUT=/verif/seeded/$ID; mkdir -p $OUT
 cp $SRC/patch.diff $OUT/patch.diff; cp $SRC/demo.rs $OUT/demo.rs; cp $SRC/notes.md $OUT/notes.md 2>/dev/null
-WT=/tmp/vs_$ID
+WT=/tmp/vs_wt   # one fixed scratch path + one shared target dir: only the changed files are recompiled
+export CARGO_TARGET_DIR=/tmp/vs_target
 git -C /repo worktree remove --force $WT >/dev/null 2>&1
 git -C /repo worktree add --detach $WT HEAD >/dev/null 2>&1 || { echo "cannot create worktree"; exit 2; }
 mkdir -p $WT/tests; cp $SRC/demo.rs $WT/tests/demo_$ID.rs
@@ -14,22 +15,22 @@ cd $WT
 export CARGO_NET_OFFLINE=true
 if ! git apply $OUT/patch.diff; then echo "PATCH DOES NOT APPLY"; applies=false; else applies=true; fi
 build=$(cargo build --offline 2>&1 | tail -1)
-base=$(bash /verif/baseline_off.sh 2>/dev/null | tail -1); [ -z "$base" ] && base=$(QV_REPO=$WT bash /verif/baseline_off.sh | tail -1)
 base=$(QV_REPO=$WT bash /verif/baseline_off.sh | tail -1)
 demo_with=$(cargo test --offline --features sqlite --test demo_$ID 2>&1 | grep -E "^test result|error(\[|:)" | head -3 | tr '\n' ' ')
 git apply -R $OUT/patch.diff
 demo_without=$(cargo test --offline --features sqlite --test demo_$ID 2>&1 | grep -E "^test result|error(\[|:)" | head -3 | tr '\n' ' ')
 cd /verif
 git -C /repo worktree remove --force $WT
+unset CARGO_TARGET_DIR
 echo "applies=$applies | build: $build | baseline: $base"
 echo "demo with change: $demo_with"
 echo "demo without change: $demo_without"
 # run the checks against /repo with the change applied
 results=""
-git -C /repo apply $OUT/patch.diff || { echo "cannot apply to /repo"; exit 2; }
+git -C /repo apply /verif/seeded/$ID/patch.diff || { echo "cannot apply to /repo"; exit 2; }
 for c in $CHECKS; do
   for tier in quick; do
-    out=$(./check $c $tier 2>&1 | grep -v "^KNOWN-FINDING"); code=$?
+    out=$(./check $c $tier 2>&1 | grep -v "^KNOWN-FINDING")
     nv=$(echo "$out" | grep -c "^VIOLATION")
     first=$(echo "$out" | grep -A1 "^VIOLATION" | grep signature | head -2 | tr '\n' ';')
     echo "check $c $tier: violations=$nv $first"
